@@ -11,7 +11,7 @@ import (
 )
 
 func init() {
-	props["C17"] = &propDef{run: runC17, explanation: "Partial. Decided statically: (P1) ResolveDocument succeeds only across the true edge of strings.HasPrefix(did, namespace + \":\") with the handler's own namespace field — the delimiter is part of the gate; (D1) no function reachable from VDR.Create / Client.CreateDID / the request builders iterates a map with an order-sensitive effect (append/indexed store that survives the loop without a sort, string accumulation, first-match return): DID creation cannot depend on Go's map iteration order; (G1) parseInitialState accepts only on the false edge of b64(JCS(decoded create request)) != supplied initial state, where the request is decoded from the base64url-decoded parameter; ParseDID splits the long form at the last ':'; resolveRequestWithInitialState accepts only across Parse(namespace, initial bytes) (full non-batch validation, C07) and the false edge of suffix != parsed suffix; short-form DIDs (no create request) and DIDs with fewer than three parts are refused; (P2) unpublished transformation info and GetCreateResult wiring. Not decided: that the document read back equals the document created (did-go parsing, behavioural)."}
+	props["C17"] = &propDef{run: runC17, explanation: "Partial. Decided statically: (P1) ResolveDocument succeeds only across the true edge of strings.HasPrefix(did, namespace + \":\") with the handler's own namespace field — the delimiter is part of the gate; (D1) no function reachable from VDR.Create / Client.CreateDID / the request builders iterates a map with an order-sensitive effect (append/indexed store that survives the loop without a sort, string accumulation, first-match return): DID creation cannot depend on Go's map iteration order; (G1) parseInitialState accepts only on the false edge of b64(JCS(decoded create request)) != supplied initial state, where the request is decoded from the base64url-decoded parameter; ParseDID splits the long form at the last ':'; resolveRequestWithInitialState accepts only across Parse(namespace, initial bytes) (full non-batch validation, C07) and the false edge of suffix != parsed suffix; short-form DIDs (no create request) and DIDs with fewer than three parts are refused; (P2) unpublished transformation info and GetCreateResult wiring. Not decided: that the document read back equals the document created (did-go parsing, behavioural). ProcessOperation: the initial state of the returned DID is b64url(JCS(request bytes)) and its suffix the parsed operation's."}
 }
 
 // mapRangeOrderEffects reports order-sensitive effects of map iterations in f.
@@ -416,6 +416,39 @@ func runC17(c *Ctx) {
 		})
 		c.Check("C17.P2", "unpublished:id=ns:suffix:initial-state", okID, f.Pos(), "with an initial state the document id is \"<ns>:<suffix>:<initial state>\"")
 		c.Check("C17.P2", "unpublished:equivalentId=ns:suffix", okEq && shortID != nil, f.Pos(), "the short form \"<ns>:<suffix>\" is listed as equivalent id")
+	}
+	// ProcessOperation: the long-form DID handed back embeds b64url(JCS(create request)) — what ResolveDocument
+	// requires of an initial state (C17.G1) — and the suffix of the parsed operation
+	if po, tiF := c.Method("vdr/sidetreelongform/dochandler", "DocumentHandler", "ProcessOperation"), c.Fn("docutil", "GetTransformationInfoForUnpublished"); po != nil && tiF != nil {
+		c.Analysed(po)
+		okInit, okSfx := false, false
+		got := ""
+		for _, cl := range callsTo(po, tiF) {
+			a := cl.Call.Args
+			if len(a) != 5 {
+				continue
+			}
+			t := normalize(c.ValueTerm(po, a[4]))
+			got = t.String()
+			// the request bytes: the parameter, or the bytes the parser hands back unchanged (C07.P1 OperationRequest)
+			for alt := range altSet(t) {
+				if alt == "b64(JCS($1))" || (strings.HasPrefix(alt, "b64(JCS(.OperationRequest(") && strings.Contains(alt, "Parse")) {
+					okInit = true
+				} else {
+					okInit = false
+					break
+				}
+			}
+			sp := c.Path(a[3], nil)
+			okSfx = strings.HasSuffix(sp, "#0.UniqueSuffix") && strings.Contains(sp, ".Parse[")
+		}
+		c.Check("C17.P2", "process:initial-state=b64(JCS(request))", okInit, po.Pos(), "the initial state of the returned long-form DID is "+got+" (expected b64(JCS(request bytes)): ResolveDocument accepts only the canonical encoding)")
+		c.Check("C17.P2", "process:suffix-of-parsed-operation", okSfx, po.Pos(), "the suffix of the returned DID is the parsed operation's unique suffix")
+		if mc := c.Fn("canonicalizer", "MarshalCanonical"); mc != nil {
+			c.CheckGuard("C17.P2", "process:canonicalization-error-propagated", po, nil, callTo("MarshalCanonical(request)", mc))
+		}
+	} else {
+		c.Unresolved("C17.P2", "(*DocumentHandler).ProcessOperation / docutil.GetTransformationInfoForUnpublished")
 	}
 	if f := c.Fn("docutil", "GetCreateResult"); f != nil {
 		c.Analysed(f)
